@@ -367,7 +367,16 @@ func (fr *FnRun) evalQuant(e *Expr, env *Env) Val {
 	var bound []*Term
 	cur := env
 	for _, name := range e.Vars {
-		b := Var(ex.fresh(name+"!q"), SInt)
+		srt := SInt
+		if i := strings.Index(name, ":"); i >= 0 {
+			s2, err := sortByName(name[i+1:])
+			if err != nil {
+				panic(abortf("contract: %v", err))
+			}
+			srt = s2
+			name = name[:i]
+		}
+		b := Var(ex.fresh(name+"!q"), srt)
 		bound = append(bound, b)
 		cur = cur.with(name, b)
 	}
@@ -491,6 +500,32 @@ func (fr *FnRun) evalCall(e *Expr, env *Env) Val {
 	case "isnil":
 		need(1)
 		return fr.specEq(env.st, arg(0), nilMarker{})
+	case "arrayof":
+		// arrayof(s): the SMT array holding the elements of s's backing array (index = offset(s) + i)
+		need(1)
+		switch v := ex.force(env.st, arg(0)).(type) {
+		case *SliceV:
+			if v.ViewW > 0 {
+				return fr.viewImage(env.st, v)
+			}
+			d, ok := fr.sliceData(env.st, v).(*Term)
+			if !ok {
+				panic(abortf("contract: arrayof() of non-scalar slice"))
+			}
+			return d
+		case *StrV:
+			return v.Arr
+		}
+		panic(abortf("contract: arrayof of %T", arg(0)))
+	case "offset":
+		need(1)
+		switch v := ex.force(env.st, arg(0)).(type) {
+		case *SliceV:
+			return v.Off
+		case *StrV:
+			return Int(0)
+		}
+		panic(abortf("contract: offset of %T", arg(0)))
 	case "bytes":
 		// bytes(s): the (Array Int Int) holding s's elements starting at index 0
 		need(1)
